@@ -167,6 +167,28 @@ fn check_name(s: &str, obs: &mut Obs) -> CaseResult {
         }
         drop(decoded);
     }
+    // 6. the entity accompanied by unknown members: near-miss spellings of the known keys (other
+    // naming conventions) and, every so often, more unknown members than any specification defines
+    {
+        const NEAR: [&str; 8] = ["display_name", "display-name", "DisplayName", "displayname", "Name", "names", "icons", "id2"];
+        let k = (s.len() * 7 + s.as_bytes().first().copied().unwrap_or(0) as usize) % NEAR.len();
+        let mut members = vec![ks("id", Value::Bytes(vec![1, 2, 3])), ks("name", text(s)), ks("displayName", text(s)), ks(NEAR[k], text("zz"))];
+        if s.len() % 5 == 0 {
+            for i in 0..16 {
+                members.push(ks(&format!("extra{:02}", i), Value::Uint(i)));
+            }
+        }
+        let with_extra = refcbor::canonicalize(&Value::Map(members));
+        let ub = refcbor::encode(&with_extra);
+        obs.sub("with-unknown-members", &[b"near", &ub]);
+        match cbor_deserialize::<PublicKeyCredentialUserEntity>(&ub) {
+            Ok(u) => {
+                verify("user.name(with unknown members)", u.name.as_deref(), true)?;
+                verify("user.displayName(with unknown members)", u.display_name.as_deref(), true)?;
+            }
+            Err(e) => return Err(fail("user(with unknown members)", format!("rejected {:?}", e))),
+        }
+    }
     if moved {
         obs.nontrivial(&[s.as_bytes()]);
     }
@@ -444,7 +466,7 @@ pub fn gens() -> Vec<Gen> {
     vec![G_STRADDLE, G_RANDOM, G_ICON, G_ILL, G_NAME_C, G_ICON_C, G_SCALAR]
 }
 
-pub const RULE: &str = "(a) enumerated: strings pad || w1..w8 || tail with pad = 56..64 ASCII bytes and every arrangement of character widths 1-4 in the 8 characters straddling byte 64 (thorough: all 4^8 patterns x 9 alignments; quick: all 4^5 patterns of the first five straddling characters x 9 alignments, remaining three random), several scalars per width incl. U+0000, U+D7FF, U+FFFF, U+10FFFF; (b) proptest: random Unicode text of 0..300 bytes; (c) icons of every length 0..300 (mixed-width text) as user icon, rp icon and legacy url; (d) ill-formed UTF-8: a valid text with one byte replaced by 0x80/0xC0/0xE0/0xF8/0xFF at a random position, truncated multi-byte sequences, surrogates, overlongs, cut characters, in each of rp.name, user.name, user.displayName, user.icon, rp.icon. Every string goes through the stand-alone user and rp entities, a MakeCredential request and a CredentialManagement updateUserInformation request, and additionally through a user entity (stand-alone and inside MakeCredential) whose members are encoded in one of the six orders of id / name / displayName (if the decoder accepts the non-canonical order, the result must be the same). Oracle: names equal the prefix ending at the largest char boundary <= 64 computed with str::is_char_boundary, valid UTF-8, <= 64 bytes; icon <= 128 kept verbatim, longer reported absent with the request accepted; rp icon/url of any length accepted; text that std::str::from_utf8 rejects must be rejected (InvalidCbor). Non-trivial: a name longer than 64 bytes whose byte 64 is not a boundary (the cut had to move), an icon of >= 127 bytes, or an actually ill-formed text; evaluations count decode paths.";
+pub const RULE: &str = "(a) enumerated: strings pad || w1..w8 || tail with pad = 56..64 ASCII bytes and every arrangement of character widths 1-4 in the 8 characters straddling byte 64 (thorough: all 4^8 patterns x 9 alignments; quick: all 4^5 patterns of the first five straddling characters x 9 alignments, remaining three random), several scalars per width incl. U+0000, U+D7FF, U+FFFF, U+10FFFF; (b) proptest: random Unicode text of 0..300 bytes; (c) icons of every length 0..300 (mixed-width text) as user icon, rp icon and legacy url; (d) ill-formed UTF-8: a valid text with one byte replaced by 0x80/0xC0/0xE0/0xF8/0xFF at a random position, truncated multi-byte sequences, surrogates, overlongs, cut characters, in each of rp.name, user.name, user.displayName, user.icon, rp.icon. Every string goes through the stand-alone user and rp entities, a MakeCredential request and a CredentialManagement updateUserInformation request, and additionally through a user entity (stand-alone and inside MakeCredential) whose members are encoded in one of the six orders of id / name / displayName (if the decoder accepts the non-canonical order, the result must be the same), and through a user entity that also carries unknown members: a near-miss spelling of a known key (display_name, DisplayName, names ...) and, one time in five, 16 further unknown members. Oracle: names equal the prefix ending at the largest char boundary <= 64 computed with str::is_char_boundary, valid UTF-8, <= 64 bytes; icon <= 128 kept verbatim, longer reported absent with the request accepted; rp icon/url of any length accepted; text that std::str::from_utf8 rejects must be rejected (InvalidCbor). Non-trivial: a name longer than 64 bytes whose byte 64 is not a boundary (the cut had to move), an icon of >= 127 bytes, or an actually ill-formed text; evaluations count decode paths.";
 pub const ASSUMPTIONS: &[&str] = &["str::is_char_boundary / std::str::from_utf8 are the reference for boundaries and well-formedness", "debug assertions make a failed unwrap_unchecked abort"];
 
 pub fn run(ctx: &mut Ctx) {
